@@ -203,6 +203,34 @@ def c15_rings(tier, seed):
                 hits.append({"type": "oracle", "hid": "ring", "line": "ring n=%d chords=%d on a 128 KiB stack" % (n, chords),
                              "idx": 0, "oracle": "C15:ring-not-reclaimed-linearly:%s" % out.replace(" ", ","),
                              "disc": "1", "d4": "0", "shrinkable": False})
+        # time must grow linearly with objects + adoptions: compare two sizes of the same shape (a ratio
+        # of the same machine's timings, best of three; quadratic work shows as the square of the size ratio)
+        ok_rows = {r["n"]: r for r in rows if r["chords"] == chords and r.get("rc") == 0 and r.get("us")}
+        big = [n for n in sizes if n in ok_rows]
+        if len(big) >= 2 and big[-2] >= 1000:
+            n1, n2 = big[-2], big[-1]
+
+            def best(n, first):
+                ts = [int(first)]
+                for _ in range(2):
+                    try:
+                        q = subprocess.run([P.HARNESS, "ring", str(n), str(chords), str(128 * 1024)],
+                                           stdout=subprocess.PIPE, stderr=subprocess.PIPE, timeout=600)
+                        mm = dict(re.findall(r"(\w+)=(\S+)", q.stdout.decode()))
+                        if "us" in mm:
+                            ts.append(int(mm["us"]))
+                    except subprocess.TimeoutExpired:
+                        pass
+                return max(1, min(ts))
+            t1, t2 = int(ok_rows[n1]["us"]), int(ok_rows[n2]["us"])
+            limit = 3.0 * (n2 / n1)
+            if t2 / max(t1, 1) > limit:
+                t1, t2 = best(n1, t1), best(n2, t2)
+            rows.append({"shape": "time-linearity", "chords": chords, "n1": n1, "n2": n2, "us1": t1, "us2": t2,
+                         "ratio": round(t2 / max(t1, 1), 2), "limit": limit})
+            if t2 / max(t1, 1) > limit and t2 > 50000:
+                hits.append({"type": "oracle", "hid": "ring", "line": "ring sizes %d -> %d chords=%d" % (n1, n2, chords), "idx": 0,
+                             "oracle": "C15:superlinear-time:%dus->%dus" % (t1, t2), "disc": "1", "d4": "0", "shrinkable": False})
         if depths and max(depths) > min(depths) + 1024:
             hits.append({"type": "oracle", "hid": "ring", "line": "ring sizes %s chords=%d" % (sizes, chords), "idx": 0,
                          "oracle": "C15:stack-depth-grows-with-N:%s" % depths, "disc": "1", "d4": "0", "shrinkable": False})
